@@ -49,10 +49,13 @@ impl SassError {
         }
     }
 
-    pub(crate) fn raw(self) -> (String, Span) {
+    /// Returns the message and span of a raw error. Errors that are already
+    /// user-facing (e.g. an `@import`ed file that could not be read or is not
+    /// valid UTF-8) are returned unchanged in the `Err` variant.
+    pub(crate) fn raw(self) -> Result<(String, Span), Self> {
         match self.kind {
-            SassErrorKind::Raw(string, span) => (string, span),
-            e => unreachable!("unable to get raw of {:?}", e),
+            SassErrorKind::Raw(string, span) => Ok((string, span)),
+            _ => Err(self),
         }
     }
 
